@@ -52,8 +52,149 @@ type lockedWrite struct {
 	inRangeOver string    // the conn.Write call sits in `for … range <ident>`
 }
 
+// muHelpers classifies the package's functions that only acquire (`<-x.mu`, possibly in a select, never a send) or only
+// release (`x.mu <- true`, never a receive) the write lock and do not write to the transport themselves: lock
+// discipline written through such helpers (lockWriteUntil / unlockWrite) is the same discipline.
+func muHelpers(p *pkgInfo) (acquire, release map[string]bool) {
+	acquire, release = map[string]bool{}, map[string]bool{}
+	for _, f := range p.files {
+		for _, d := range f.Decls {
+			fd, ok := d.(*ast.FuncDecl)
+			if !ok || fd.Body == nil {
+				continue
+			}
+			recv, send, writes := 0, 0, 0
+			ast.Inspect(fd.Body, func(n ast.Node) bool {
+				switch x := n.(type) {
+				case *ast.UnaryExpr:
+					if x.Op == token.ARROW && hasSuffixPath(x.X, "mu") {
+						recv++
+					}
+				case *ast.SendStmt:
+					if hasSuffixPath(x.Chan, "mu") {
+						send++
+					}
+				case *ast.CallExpr:
+					if se, ok := x.Fun.(*ast.SelectorExpr); ok && se.Sel.Name == "Write" && hasSuffixPath(se.X, "conn") {
+						writes++
+					}
+				}
+				return true
+			})
+			if writes == 0 && recv > 0 && send == 0 {
+				acquire[fd.Name.Name] = true
+			}
+			if writes == 0 && send > 0 && recv == 0 {
+				release[fd.Name.Name] = true
+			}
+		}
+	}
+	return
+}
+
+// heldAt: in fd, is the write lock held at pos — an acquisition (receive on mu or a call of an acquiring helper) before
+// pos, the release (send or releasing helper) only in a defer.
+func heldAt(fd *ast.FuncDecl, pos token.Pos, acq, rel map[string]bool) (held bool, acquirePos token.Pos) {
+	deferRel, other := false, 0
+	var walk func(n ast.Node, inDefer bool)
+	walk = func(n ast.Node, inDefer bool) {
+		ast.Inspect(n, func(m ast.Node) bool {
+			switch x := m.(type) {
+			case *ast.DeferStmt:
+				if m != n {
+					walk(x.Call, true)
+					return false
+				}
+			case *ast.UnaryExpr:
+				if x.Op == token.ARROW && hasSuffixPath(x.X, "mu") && x.Pos() < pos && !inDefer {
+					if acquirePos == token.NoPos || x.Pos() < acquirePos {
+						acquirePos = x.Pos()
+					}
+				}
+			case *ast.SendStmt:
+				if hasSuffixPath(x.Chan, "mu") {
+					if inDefer {
+						deferRel = true
+					} else {
+						other++
+					}
+				}
+			case *ast.CallExpr:
+				if se, ok := x.Fun.(*ast.SelectorExpr); ok {
+					if acq[se.Sel.Name] && x.Pos() < pos && !inDefer {
+						if acquirePos == token.NoPos || x.Pos() < acquirePos {
+							acquirePos = x.Pos()
+						}
+					}
+					if rel[se.Sel.Name] {
+						if inDefer {
+							deferRel = true
+						} else {
+							other++
+						}
+					}
+				}
+			}
+			return true
+		})
+	}
+	walk(fd.Body, false)
+	return acquirePos != token.NoPos && deferRel && other == 0, acquirePos
+}
+
 func analyseLockedWrites(p *pkgInfo) []lockedWrite {
 	var out []lockedWrite
+	acqH, relH := muHelpers(p)
+	var allFuncs []*ast.FuncDecl
+	for _, f := range p.files {
+		for _, d := range f.Decls {
+			if fd, ok := d.(*ast.FuncDecl); ok && fd.Body != nil {
+				allFuncs = append(allFuncs, fd)
+			}
+		}
+	}
+	// heldByCallers: fd itself never touches the lock, and every call of it in the package sits where the lock is held
+	heldByCallers := func(fd *ast.FuncDecl) bool {
+		touches := false
+		ast.Inspect(fd.Body, func(n ast.Node) bool {
+			switch x := n.(type) {
+			case *ast.UnaryExpr:
+				if x.Op == token.ARROW && hasSuffixPath(x.X, "mu") {
+					touches = true
+				}
+			case *ast.SendStmt:
+				if hasSuffixPath(x.Chan, "mu") {
+					touches = true
+				}
+			case *ast.CallExpr:
+				if se, ok := x.Fun.(*ast.SelectorExpr); ok && (acqH[se.Sel.Name] || relH[se.Sel.Name]) {
+					touches = true
+				}
+			}
+			return true
+		})
+		if touches {
+			return false
+		}
+		calls, ok := 0, true
+		for _, h := range allFuncs {
+			if h == fd {
+				continue
+			}
+			ast.Inspect(h.Body, func(n ast.Node) bool {
+				if ce, isCall := n.(*ast.CallExpr); isCall {
+					if se, isSel := ce.Fun.(*ast.SelectorExpr); isSel && se.Sel.Name == fd.Name.Name && selPath(se.X) != "" {
+						calls++
+						if held, _ := heldAt(h, ce.Pos(), acqH, relH); !held {
+							ok = false
+						}
+					}
+				}
+				return true
+			})
+		}
+		return calls > 0 && ok
+	}
 	for _, f := range p.files {
 		for _, d := range f.Decls {
 			fd, ok := d.(*ast.FuncDecl)
@@ -71,35 +212,16 @@ func analyseLockedWrites(p *pkgInfo) []lockedWrite {
 			})
 			for _, w := range writes {
 				lw := lockedWrite{fn: fd, writePos: w.Pos()}
-				// acquire / release
-				var walk func(n ast.Node, inDefer bool)
-				walk = func(n ast.Node, inDefer bool) {
-					ast.Inspect(n, func(m ast.Node) bool {
-						switch x := m.(type) {
-						case *ast.DeferStmt:
-							if m != n {
-								walk(x.Call, true)
-								return false
-							}
-						case *ast.UnaryExpr:
-							if x.Op == token.ARROW && hasSuffixPath(x.X, "mu") && x.Pos() < lw.writePos && !inDefer {
-								if lw.acquirePos == token.NoPos || x.Pos() < lw.acquirePos {
-									lw.acquirePos = x.Pos()
-								}
-							}
-						case *ast.SendStmt:
-							if hasSuffixPath(x.Chan, "mu") {
-								if inDefer {
-									lw.deferRel = true
-								} else {
-									lw.otherSends++
-								}
-							}
-						}
-						return true
-					})
+				// acquire / release: in this function (directly or through the lock helpers), or — for a function that never
+				// touches the lock — in every one of its callers
+				if held, ap := heldAt(fd, lw.writePos, acqH, relH); held {
+					lw.acquirePos, lw.deferRel = ap, true
+				} else if heldByCallers(fd) {
+					lw.acquirePos, lw.deferRel = fd.Body.Pos(), true
+				} else {
+					lw.acquirePos = ap
+					lw.otherSends = 1
 				}
-				walk(fd.Body, false)
 				// err := x.writeErr ; if err != nil { return }   — the read may also go through a helper method whose
 				// body reads x.writeErr (`err := x.stickyWriteErr()`), and may sit in the if's init clause
 				readsWriteErr := func(e ast.Expr) bool {
@@ -312,6 +434,29 @@ func websocketFactsLocking(p *pkgInfo, w *bytes.Buffer) error {
 	}
 	oneHold := nWrite == 1 && nBufs >= 2
 	wfd := p.funcDecl("Conn", "write")
+	// Conn.write may hand its buffers on to a helper that does the transport writes while write holds the lock
+	// (`c.writeLocked(frameType, deadline, bufs...)`): the helper is then the function looked at below
+	{
+		own := false
+		for _, lw := range lws {
+			own = own || lw.fn == wfd
+		}
+		if !own {
+			acqH, relH := muHelpers(p)
+			ast.Inspect(wfd.Body, func(n ast.Node) bool {
+				if ce, ok := n.(*ast.CallExpr); ok && ce.Ellipsis.IsValid() {
+					if se, ok := ce.Fun.(*ast.SelectorExpr); ok {
+						if g := p.funcDecl("Conn", se.Sel.Name); g != nil && g.Body != nil {
+							if held, _ := heldAt(wfd, ce.Pos(), acqH, relH); held {
+								wfd = g
+							}
+						}
+					}
+				}
+				return true
+			})
+		}
+	}
 	variadic := ""
 	if pl := wfd.Type.Params.List; len(pl) > 0 {
 		last := pl[len(pl)-1]
